@@ -811,30 +811,40 @@ func (a *FA) InductionOf(idx ssa.Value, use *ssa.BasicBlock) (*LoopIV, bool) {
 			phi, phiAtom = p, atom
 		}
 	}
-	if phi == nil || len(phi.Edges) != 2 {
+	if phi == nil || len(phi.Edges) < 2 {
 		return nil, false
 	}
 	iv := &LoopIV{Phi: phi}
 	pl := linAtom(phiAtom)
 	found := false
-	for i, e := range phi.Edges {
+	// edges are either "phi + step" (back edges, possibly several: continue statements) or the initial value
+	var initL *Lin
+	for _, e := range phi.Edges {
 		el := a.Lin(e)
 		if d := el.Sub(pl); d.IsConst() && d.K != 0 {
-			o := a.Lin(phi.Edges[1-i])
-			iv.Step = d.K
-			// idx = phi + (L - phi); first = init + (L-phi)
-			rest := L.Sub(pl)
-			iv.FirstLin = o.Add(rest)
-			iv.FirstConst = iv.FirstLin.IsConst()
-			if !iv.FirstConst {
-				if _, dep := iv.FirstLin.T[phiAtom]; dep {
-					return nil, false
-				}
+			if found && iv.Step != d.K {
+				return nil, false
 			}
-			iv.First = iv.FirstLin.K
+			iv.Step = d.K
 			found = true
+			continue
 		}
+		if _, dep := el.T[phiAtom]; dep {
+			return nil, false
+		}
+		if initL != nil && !initL.Eq(el) {
+			return nil, false
+		}
+		e2 := el
+		initL = &e2
 	}
+	if !found || initL == nil {
+		return nil, false
+	}
+	rest := L.Sub(pl)
+	iv.FirstLin = initL.Add(rest)
+	iv.FirstConst = iv.FirstLin.IsConst()
+	iv.First = iv.FirstLin.K
 	if !found {
 		return nil, false
 	}
